@@ -165,3 +165,15 @@ EXT2 = {
 }
 for _k, _v in EXT2.items():
     CHECKS[_k]["text"] += _v
+
+# ---- families added after the hold-out round 9
+EXT3 = {
+    "C04": " f32 estimator spaces also at lattice steps 2^29 and 2^-24.",
+    "C12": " All-schedule 1-D / 2-D fits also at scale 2^-30 (squared distances below machine epsilon).",
+    "C13": " On a tie between unclustered neighbours and a cluster, predict must answer the cluster (noise only when unclustered points dominate).",
+    "C14": " Correlation-mode column-scale profile with standard deviations 2^57 apart.",
+    "C16": " cross_validate / cross_val_predict driven by a user-written splitter with listed, purged and reordered folds.",
+    "C20": " Norm orders 0.5 and -1 next to 1, 2, 3, +-inf.",
+}
+for _k, _v in EXT3.items():
+    CHECKS[_k]["text"] += _v
